@@ -114,6 +114,84 @@ def r1_raise_census(ctx, chk, rule="C06.1"):
     chk.extra["raise_sites"] = n
 
 
+def _sweep_counters(f):
+    """Names that count the sweeps of a convergence loop of f: incremented (`i += 1`, `i = i + 1`) inside a `while` loop, or the
+    target of a `for .. in range(..)` loop that contains a kernel call."""
+    out = set()
+    for w in walk_no_nested_defs(f.node):
+        if isinstance(w, ast.While):
+            for n in ast.walk(w):
+                if isinstance(n, ast.AugAssign) and isinstance(n.op, ast.Add) and isinstance(n.target, ast.Name):
+                    out.add(n.target.id)
+                if isinstance(n, ast.Assign) and len(n.targets) == 1 and isinstance(n.targets[0], ast.Name) and isinstance(n.value, ast.BinOp) \
+                        and isinstance(n.value.op, ast.Add) and isinstance(n.value.left, ast.Name) and n.value.left.id == n.targets[0].id:
+                    out.add(n.targets[0].id)
+    return out
+
+
+def r1c_budget_raises(ctx, chk, rule="C06.1c"):
+    """'It never fails with any other error': a raise whose condition is the number of sweeps done so far (an iteration budget)
+    fails the well-formed stopping games that need more sweeps than the budget - however large it is, slower games exist."""
+    scope = shared.solver_scope(ctx)
+    n = hits = 0
+    for f in scope:
+        home = ctx.prog.funcs.get(f.qual)
+        if home is not None and home.node is not f.node:
+            continue
+        counters = _sweep_counters(f)
+        # parameters that receive a sweep counter at some call site
+        for g in scope:
+            hg = ctx.prog.funcs.get(g.qual)
+            if hg is not None and hg.node is not g.node:
+                continue
+            cg_ = _sweep_counters(g)
+            if not cg_:
+                continue
+            for call, callees in ctx.cg.call_sites(g):
+                if f not in callees:
+                    continue
+                params = [p_ for p_ in f.params if p_ != "self"]
+                for pos, a in enumerate(call.args):
+                    if isinstance(a, ast.Name) and a.id in cg_ and pos < len(params):
+                        counters.add(params[pos])
+                for k in call.keywords:
+                    if k.arg and isinstance(k.value, ast.Name) and k.value.id in cg_:
+                        counters.add(k.arg)
+        for r in walk_no_nested_defs(f.node):
+            if not isinstance(r, ast.Raise):
+                continue
+            n += 1
+            tests = []
+            p_ = r
+            while p_ is not None and p_ is not f.node:
+                par = getattr(p_, "parent", None)
+                if isinstance(par, (ast.If, ast.While)) and p_ is not par.test:
+                    tests.append(par.test)
+                if isinstance(par, (ast.For, ast.While)) and p_ in par.orelse:
+                    tests.append(None)
+                p_ = par
+            used = {x.id for t in tests if t is not None for x in ast.walk(t) if isinstance(x, ast.Name)}
+            if _option_guard(f, r):
+                continue
+            if used & counters:
+                # an option of the solver that is off in the documented configuration (`max_iterations=None`): the raise is dead there
+                try:
+                    sx_ = SymX(ctx, f, f.cls.name if f.cls is not None else None, inline_depth=0).run()
+                    live = [e for e in sx_.final.effects if e[1] == "raise" and e[0] != FALSE] + \
+                        [e for L_ in sx_.loops.values() for e in L_.effects if e[1] == "raise" and e[0] != FALSE]
+                    if not live:
+                        continue
+                except AnalysisError:
+                    pass
+                hits += 1
+                c = sorted(used & counters)[0]
+                chk.violation(rule, f.where(r), "`%s` is raised when the sweep counter `%s` reaches a budget: a well-formed stopping game that needs more sweeps fails with an error "
+                              "that is not the 'no solution' verdict" % (norm_stmt(r)[:70], c), expected="the sweeps run until the change is within the threshold",
+                              found=norm_stmt(r)[:100], construct="%s iteration budget raise" % f.short)
+    if not hits:
+        chk.ok(rule, "tad.py, reverse_dfs.py", "%d raise statements in the solver's scope, none conditioned on the number of sweeps done" % n)
+
+
 def r1b_try_census(ctx, chk, rule="C06.1b"):
     """No handler in the solver modules swallows or converts a validation / solver error: a handler that catches
     ValueError, Exception, BaseException (or everything) must re-raise a ValueError."""
@@ -572,7 +650,26 @@ def r3e_builtin_on_empty(ctx, chk, rule="C06.3e"):
     vir = ctx.prog.funcs.get("tad.py::Solver.value_iteration_reachability")
     if vir is not None and len(vir.params) > 1:
         dom = vir.params[1]
+
+        def _under_nonempty_test(c):
+            p_ = c
+            while p_ is not None and p_ is not vir.node:
+                par = getattr(p_, "parent", None)
+                if isinstance(par, (ast.If, ast.IfExp)) and p_ is not par.test and any(isinstance(x, ast.Name) and x.id == dom for x in ast.walk(par.test)):
+                    return True
+                p_ = par
+            return False
         for c in walk_no_nested_defs(vir.node):
+            if isinstance(c, ast.Call) and call_name(c) in ("max", "min") and len(c.args) == 1 and isinstance(c.args[0], ast.Name) and c.args[0].id == dom \
+                    and not any(k.arg == "default" for k in c.keywords) and not _under_nonempty_test(c):
+                chk.violation(rule, vir.where(c), "`%s` has no default: when no state outside the final ones can reach a final state the swept list `%s` is empty and solve() fails with a stray "
+                              "'ValueError: %s() iterable argument is empty' instead of the result / the 'no solution' error" % (src(c)[:70], dom, call_name(c)),
+                              expected="default= (or a non-emptiness test)", found=src(c)[:100], construct="value_iteration_reachability %s() over an empty sweep" % call_name(c))
+            if isinstance(c, ast.Subscript) and isinstance(c.value, ast.Name) and c.value.id == dom and isinstance(c.ctx, ast.Load) \
+                    and isinstance(c.slice, (ast.Constant, ast.UnaryOp)) and not isinstance(getattr(c.slice, "value", 0), (str, type(None))) and not _under_nonempty_test(c):
+                chk.violation(rule, vir.where(c), "`%s` reads an element of the swept list at a fixed position: when no state outside the final ones can reach a final state the list is empty and "
+                              "solve() fails with a stray IndexError" % src(c)[:60], expected="a non-emptiness test", found=src(c)[:80],
+                              construct="value_iteration_reachability fixed subscript of the sweep domain")
             if isinstance(c, ast.Call) and call_name(c) in ("max", "min") and len(c.args) == 1 and isinstance(c.args[0], (ast.GeneratorExp, ast.ListComp)) \
                     and not any(k.arg == "default" for k in c.keywords):
                 it = c.args[0].generators[0].iter
@@ -785,8 +882,12 @@ def r3c_division(ctx, chk, rule="C06.3c"):
 
 
 def run(ctx, chk):
+    # observed through the batch driver: run_games()[name]['msg'] must be this game's, this mode's value
+    from . import C12 as _C12
+    _C12.observe(ctx, chk, "C06.obs", ['msg'], with_msg=True)
     r1_raise_census(ctx, chk)
     r1b_try_census(ctx, chk)
+    r1c_budget_raises(ctx, chk)
     r2_no_solution(ctx, chk)
     r2b_flag_raises(ctx, chk)
     r3a_definite_assignment(ctx, chk)
